@@ -148,6 +148,33 @@ fn op_cli(line: &str, args: &[SExp]) -> CaseResult {
             oracle = Some("not a POST".into());
         }
     }
+    // direct oracle (the property's wording): with the state check on, a printer that answers the query with
+    // printer-state stopped or one of the ten blocking reasons gets no job and the exit status is non-zero
+    if !no_check && oracle.is_none() {
+        if let Some(first) = answers.first().and_then(read_msg) {
+            const BLOCKING: [&str; 10] = ["media-jam", "toner-empty", "spool-area-full", "cover-open", "door-open", "input-tray-missing",
+                "output-tray-missing", "marker-supply-empty", "paused", "shutdown"];
+            let pg = first.groups.iter().find(|g| g.0 == 4);
+            let stopped = pg.map(|g| g.1.iter().any(|a| a.0 == "printer-state" && a.1 == IppValue::Enum(5))).unwrap_or(false);
+            let blocked = pg
+                .map(|g| {
+                    g.1.iter().filter(|a| a.0 == "printer-state-reasons").any(|a| match &a.1 {
+                        IppValue::Keyword(k) => BLOCKING.contains(&k.as_str()),
+                        IppValue::Array(vs) => vs.iter().any(|v| matches!(v, IppValue::Keyword(k) if BLOCKING.contains(&k.as_str()))),
+                        _ => false,
+                    })
+                })
+                .unwrap_or(false);
+            if first.op <= 2 && (stopped || blocked) {
+                let sent_job = caps.iter().any(|c| parse_flat(&c.body).map(|(h, _, _)| h.operation_or_status == Operation::PrintJob as u16).unwrap_or(false));
+                if sent_job {
+                    oracle = Some(format!("the printer reported {} but a Print-Job was submitted (exit status {})", if stopped { "printer-state stopped" } else { "a blocking printer-state-reason" }, code));
+                } else if code == 0 {
+                    oracle = Some("the printer was stopped or blocked but the exit status is zero".into());
+                }
+            }
+        }
+    }
     let comps = crate::exec3::components(&uri);
     let base = match line.find(" (c ") {
         Some(i) => &line[..i],
